@@ -10,7 +10,8 @@ package main
 //                        then the real encoder on the decoded value: "ok <hex>" | "err"; the model must agree on
 //                        accept/reject (false rejects and false accepts) and on the re-encoding (= the value).
 //                        Families: header, tx, deputynode, event, assetequity, blockconfirm, blockconfirms, handshake,
-//                        asset, changelog, changelogs and (since the strictness fixes of /repo) block.
+//                        asset, changelog, changelogs, (since the strictness fixes of /repo) block, accountdata, getblocks
+//                        and - from c14_account.go, through p2p.Msg.Decode - blocksmsg.
 
 import (
 	"fmt"
@@ -180,7 +181,12 @@ func (s *c14Src) schema(name string) string {
 		if t, ok := s.types["types."+name]; ok {
 			return s.render("types", t, "", 0)
 		}
-	case "BlockConfirmData", "BlockConfirms", "ProtocolHandshake":
+	case "rlpAccountData":
+		// nested rlpCandidate{*big.Int, *Profile}: the Profile (a map with its own codec) is rendered "?map"
+		if t, ok := s.types["types."+name]; ok {
+			return s.render("types", t, "", 0)
+		}
+	case "BlockConfirmData", "BlockConfirms", "ProtocolHandshake", "GetBlocksData":
 		if t, ok := s.types["network."+name]; ok {
 			return s.render("network", t, "", 0)
 		}
@@ -274,7 +280,8 @@ func (s *c14Src) logTable() map[int]string {
 	return reg
 }
 
-var c14SchemaNames = []string{"rlpHeader", "txdata", "DeputyNode", "BlockConfirmData", "BlockConfirms", "ProtocolHandshake", "rlpEvent", "AssetEquity", "AssetFields"}
+var c14SchemaNames = []string{"rlpHeader", "txdata", "DeputyNode", "BlockConfirmData", "BlockConfirms", "ProtocolHandshake", "rlpEvent", "AssetEquity", "AssetFields",
+	"rlpAccountData", "GetBlocksData"}
 
 func c14SchemaOps(c *Ctx) {
 	s, err := c14LoadSrc()
@@ -302,6 +309,7 @@ var c14TypedOpName = map[string]string{
 	"header": "header", "tx": "tx", "deputynode": "deputynode", "event": "event", "assetequity": "assetequity",
 	"netmsg-blockconfirm": "blockconfirm", "netmsg-blockconfirms": "blockconfirms", "netmsg-handshake": "handshake",
 	"asset": "asset", "changelog": "changelog", "changelogs": "changelogs", "block": "block",
+	"accountdata": "accountdata", "netmsg-getblocks": "getblocks", // LemoModel/RlpAccount.lean; `typed blocksmsg` comes from c14_account.go
 }
 
 // c14TypedOp records one `typed` op. accepted/re are the real decoder's verdict and the real re-encoding.
